@@ -382,6 +382,11 @@ def write_ops(shape, vals):
                         ops.append({"addr": [[a, i] for a, i in zip(axes, idx)], "pos": pos, "val": val})
     for a in range(nd):
         ops.append({"addr": [[a, 0]], "pos": "below", "val": "scalar"})
+    # a request that resolves its first dimension and fails on a later one (rejected part-way): nothing may be written, and
+    # nothing of it may survive into later calls
+    for a in range(nd):
+        for b in range(a + 1, nd):
+            ops.append({"addr": [[a, 0], [b, 0]], "pos": "on", "pos_by_axis": {str(b): "below"}, "val": "scalar"})
     for k, op in enumerate(ops):
         op["k"] = k
     return ops
@@ -451,7 +456,7 @@ class WriteSystem:
         """
         query, fixed, outside = {}, {}, False
         for a, i in op["addr"]:
-            p = self.position(a, i, op["pos"])
+            p = self.position(a, i, (op.get("pos_by_axis") or {}).get(str(a), op["pos"]))
             query[DIMS[a]] = p
             m = am.index_model(self.axes[a][0], p, raise_error=True)
             if m == am.OUTSIDE:
